@@ -61,3 +61,16 @@ def conc_scenarios():
 
 def conc_env():
     return {"VERIF_CONC_STORE": "1"} if _opt("execgen_set", "set_cmd") else {}
+
+
+def ttl_extras():
+    """(extra_setup, extra_probe) hooks of families that provide TTL scenarios for their value types; (None, None) otherwise"""
+    setups, probes = [], []
+    for mod in ("execgen_list", "execgen_hash", "execgen_set", "execgen_zset", "execgen_stream"):
+        s, p = _opt(mod, "ttl_setup"), _opt(mod, "ttl_probe")
+        if s and p:
+            setups.append(s)
+            probes.append(p)
+    if not setups:
+        return None, None
+    return (lambda rng, k, ttl: rng.choice(setups)(rng, k, ttl)), (lambda rng, k, keys: rng.choice(probes)(rng, k, keys))
